@@ -306,6 +306,17 @@ func (e *Engine) loopEntry(st *State, fr *Frame, li *loopInfo, pred *ssa.BasicBl
 	}
 	e.havocLoopWrites(st, fr, li)
 	e.assumeInvariant(st, fr, li, ls)
+	if len(ls.Decr) > 0 {
+		// the variant's value at the head of an arbitrary iteration; compared at every back edge
+		var vs []Term
+		for _, c := range ls.Decr {
+			vs = append(vs, e.evalTerm(c.E, e.invEnv(st, fr)))
+		}
+		if fr.variants == nil {
+			fr.variants = map[*ssa.BasicBlock][]Term{}
+		}
+		fr.variants[li.header] = vs
+	}
 	fr.inLoop[li.header] = true
 	st.path = append(st.path, fmt.Sprintf("L%d.", li.ord))
 	e.runInstrs(st, fr, li.header, nil, countPhis(li.header))
@@ -336,6 +347,18 @@ func (e *Engine) loopBackEdge(st *State, fr *Frame, li *loopInfo, pred *ssa.Basi
 		return
 	}
 	e.assertInvariant(st, fr, li, ls, "inv-preserve")
+	if old := fr.variants[li.header]; len(old) > 0 && len(old) == len(ls.Decr) {
+		// termination: the variant is bounded below and strictly smaller (lexicographically) at the next head
+		var now []Term
+		for _, c := range ls.Decr {
+			now = append(now, e.evalTerm(c.E, e.invEnv(st, fr)))
+		}
+		g := False
+		for i := len(old) - 1; i >= 0; i-- {
+			g = Or(And(Le(IntLit(0), old[i]), Lt(now[i], old[i])), And(Eq(now[i], old[i]), g))
+		}
+		e.obligation(st, "decreases", fmt.Sprintf("loop%d", li.ord), g, "loop variant: "+ls.Decr[0].Src)
+	}
 	e.paths++
 }
 
@@ -1675,4 +1698,20 @@ func (e *Engine) findCalleeByName(name string) *ssa.Function {
 		walk(bodyOf(e.root))
 	}
 	return found
+}
+
+// loopKind classifies a natural loop by the block comment go/ssa gives its header: range loops over slices, arrays,
+// strings, integers and maps are lowered by go/ssa itself (bound evaluated once, index advanced by one / iterator
+// advanced) and terminate by construction; `for` loops and range-over-channel loops need a variant.
+func loopKind(li *loopInfo) string {
+	c := li.header.Comment
+	switch {
+	case strings.HasPrefix(c, "rangeindex"), strings.HasPrefix(c, "rangeint"):
+		return "range-index"
+	case strings.HasPrefix(c, "rangeiter"):
+		return "range-iter"
+	case strings.HasPrefix(c, "rangechan"):
+		return "range-chan"
+	}
+	return "for"
 }
